@@ -266,12 +266,15 @@ class TJPTransformer(Transformer[Any, Any]):
         """
         import re
 
-        match = re.match(r"(\d+(?:\.\d+)?)\s*([hdwmy]?)", str(duration_str))
+        match = re.match(r"(\d+(?:\.\d+)?)\s*(min|[hdwmy])?", str(duration_str))
         if match:
             value: float = float(match.group(1))
             unit: str = match.group(2) or "h"
             hours: float
-            if unit == "h":
+            if unit == "min":
+                # "90min" is ninety minutes, not ninety months
+                hours = value / 60.0
+            elif unit == "h":
                 hours = value
             elif unit == "d":
                 hours = value * 8  # 8 hours per day
